@@ -22,7 +22,13 @@ Oracle (nothing more than the property statement):
   progress  every outcome (error or packet) strictly increases the number of consumed bytes (fed - still held), hence the
             loop `while bytes remain: next(None)` terminates;
   no-hang   the per-run wall watchdog of the runner (Harness.wall_limit, >= 1000x the typical cost of a run) fired inside
-            the code under test.
+            the code under test;
+  remainder (harnesses <family>-remainder-copy/-fill, `run_remainder`) "... a parse error carrying the unread remainder": streams
+            whose frame boundaries the harness knows by construction (valid frames, complete frames longer than the limit,
+            malformed-but-delimited frames), for every entry with a limit that is file-based or separator-framed; while the consumer
+            is in sync and the refused frame was completely received, the error consumes no byte behind that frame, the bytes kept
+            are exactly the unread ones, and the valid frames behind it are delivered as sent.  See the comment above run_remainder
+            for what is deliberately not claimed (verdicts on partial frames, garbage without frame structure).
 
 Finding D4 (DESIGN §5; fixed in /repo by d5d0f61): JSONSerializer let RecursionError (nesting >= ~1500) and ValueError
 (int literal > 4300 digits) escape.  Both input classes — bracket nesting of 3000-7000 levels and digit runs of 4301-13301
@@ -41,10 +47,10 @@ from easynetwork.exceptions import DatagramProtocolParseError
 
 from vsim.chunk import CopyDriver, FillDriver, cuts_to_chunks
 from vsim.runner import Harness, RunTimeout
-from vsim.world import Violation, World
+from vsim.world import HarnessError, Violation, World
 
 from . import matrix as M
-from .c01 import bounded_cuts
+from .c01 import bounded_cuts, tight_limit
 
 PROPERTY = "C06"
 LEVEL = "exploration"
@@ -55,6 +61,15 @@ RULE = (
     "pickle opcodes, wrong-shape DTO), structurally extreme input up to the limit (nesting, digit strings, backslash runs, long tokens, whitespace "
     "and separator runs, thousands of tiny documents), random bytes}; delivered one-shot, or to the copy / fill consumer under C01's chunkings "
     "(<= 256 chunks above 1 KiB, <= 64 above 8 KiB); oracle: outcome type totality, strict progress per outcome, wall watchdog. "
+    "Remainder harnesses (<family>-remainder-copy/-fill; every entry with a limit that is file-based (FileBasedPacketSerializer subclasses: pickle-backed, "
+    "length-prefixed) or separator-framed (line, JSON lines, base64, AutoSeparatedPacketSerializer subclasses, stapled, converter)): a stream of 2-6 complete "
+    "frames with boundaries known by construction, each valid (within the limit with C01's safety margin), oversized (complete, limit+1 .. 2.5x limit bytes; file-based: a real "
+    "packet produced by the serializer) or malformed-but-delimited (separator families), the last one valid; limits 32..4096; same chunkings, "
+    "size hints and fill modes; oracle while the consumer is in sync (every outcome consumed exactly one frame) and the judged frame was completely "
+    "handed over: an error consumes no byte behind the refused frame (the frames received in the same read(s) are still in the remainder), the bytes kept after "
+    "the error are exactly data[consumed:fed], every valid frame behind a refused one is delivered as the packet sent, none is left unanswered at the end; "
+    "verdicts on partial frames leave the regime (probes remainder-verdict-on-partial-frame / -resync-inside-frame / -packet-off-boundary; "
+    "remainder-complete-frame-rejected and remainder-valid-frame-after-rejection count the exercised cases). "
     "Non-trivial run = at least one corruption/fragmentation fired and >= 1 outcome (packet or parse error) was produced."
 )
 COMPONENTS_REAL = [
@@ -71,6 +86,9 @@ ASSUMPTIONS = [
     "decompression bombs are not generated: the compressor wrappers have no configured limit, and the property quantifies 'up to the configured limit'",
     "nesting depths between 400 and 3000 are not generated (RecursionError threshold zone, would make outcomes depend on the harness stack depth)",
     "the wall watchdog is the runner's per-run alarm (20 s for runs that normally take ~1 ms)",
+    "remainder clause: only for streams built as a concatenation of complete frames with known boundaries, and only for outcomes reported while the consumer is in sync "
+    "and the judged frame is completely received; a limit error on a partial frame (legitimate) ends the claim for that run; whether an oversized or malformed frame "
+    "IS refused is not demanded here (C07 / C02); file-based runs end when the in-sync regime is left (the tail of a refused frame is one 1-byte parse error per filler byte)",
 ]
 BUDGET = {"quick": 40, "thorough": 480}
 
@@ -525,6 +543,14 @@ def _short(b: bytes, n: int = 400) -> str:
     return r if len(r) <= n else r[: n // 2] + f" ...({len(b)} bytes)... " + r[-n // 2 :]
 
 
+def _shortv(v: Any, n: int = 120) -> str:
+    try:
+        r = repr(v)
+    except Exception:  # noqa: BLE001  (deep structure)
+        r = "<unprintable>"
+    return r if len(r) <= n else r[: n // 2] + f" ...({len(r)} chars)... " + r[-n // 2 :]
+
+
 def run_malformed(world: World, family: str, mode: str) -> None:
     needs = {"oneshot": "datagram", "copy": "stream", "fill": "buffered"}[mode]
     entries = M.select(family, needs=needs, large=False)
@@ -617,8 +643,238 @@ def run_malformed(world: World, family: str, mode: str) -> None:
         )
 
 
+# ------------------------------------------------------------------------------------------------ the error's remainder (framed streams)
+# "... or reports a protocol parse error CARRYING THE UNREAD REMAINDER ... a receive loop that skips errors always makes progress":
+# for garbage nothing can be said about what "follows" a refused frame, so this harness only builds streams whose frame
+# boundaries are known by construction: a concatenation of complete frames, each either
+#   V  a valid packet of the entry, safely within the configured limit (C01's tight_limit margin);
+#   O  a complete, well-delimited frame LONGER than the limit (file-based: a real packet of limit+x bytes produced by the
+#      serializer itself; separator-based: limit+1+x filler bytes and the separator);
+#   M  (separator-based only) a short payload the format rejects, followed by the separator.
+# While the consumer is *in sync* (every outcome so far consumed exactly one whole frame) and frame k has been completely
+# handed over when an outcome is reported:
+#   error-consumed-following-frames  an error consumed more than frame k: bytes of the frames behind it are not in the
+#                                    remainder, i.e. complete frames received in the same read(s) are lost;
+#   remainder-not-the-unread-bytes   the bytes kept after the error are not data[consumed:fed];
+#   valid-frame-after-rejection-*    a V frame behind a rejected frame is delivered as the packet that was sent (rejected /
+#                                    altered / not delivered although everything was fed).
+# Nothing is claimed for an outcome reported while frame k is still incomplete (the limit may legitimately fire on a partial
+# frame, after which the rest of that frame is garbage without frame structure): the run leaves the in-sync regime and only
+# the clauses of run_malformed (escape, progress, no-hang) go on.  Nothing demands that an O or M frame IS rejected (C07/C02).
+REM_LIMITS = [64, 256, 32, 1024, 4096]
+REM_LIMITS_FILEBASED = [64, 256, 32, 1024]  # every read re-parses what is buffered (<= limit bytes) with the pure-Python unpickler
+REM_EXTRA = [0, 1, 7, 30]  # + multiples of the limit below
+_REM_FILLER = 0x51  # 'Q': in no separator of the matrix
+
+
+class _OutOfSync(Exception):
+    """File-based entries: the run ends when the in-sync regime is left.  What remains is the tail of the refused frame, a run of
+    filler bytes each of which is one parse error that copies the whole buffer again (quadratic, and run_malformed's business)."""
+
+
+_REM_MALFORMED = [b"\xff", b'{"Q":', b"***=", b"\xff\xfe\xfd", b"\x80\x04\x95", b"Q\xc3", b"]"]
+
+
+def _rem_entries(family: str, mode: str) -> list:
+    return [e for e in M.select(family, needs=_NEEDS[mode], large=False, roundtrip=True) if e.has_limit and (e.family == "filebased" or e.sep)]
+
+
+def run_remainder(world: World, family: str, mode: str) -> None:
+    needs = _NEEDS[mode]
+    entries = _rem_entries(family, mode)
+    entry = entries[world.choose("entry", len(entries))]
+    sep = entry.sep if entry.family != "filebased" else None
+    debug = bool(world.choose("debug", 2))
+    site = f"C06/{family}/{mode}/remainder"
+
+    # ---- frame kinds; the last frame is valid so that something always follows a refused frame
+    nframes = 2 + world.choose("nframes", 5)
+    kinds = [("V", "V", "V", "O", "M")[world.choose("frame_kind", 5)] for _ in range(nframes - 1)] + ["V"]
+    if sep is None:
+        kinds = ["O" if k == "M" else k for k in kinds]
+    sent = entry.gen_packets(world, kinds.count("V"), "stream")
+    producer_proto = entry.stream_protocol()
+    vframes = [M.produce(producer_proto, [p])[0] for p in sent]
+    mframes: dict[int, bytes] = {}
+    for i, k in enumerate(kinds):
+        if k == "M":
+            cands = [g for g in _REM_MALFORMED if not any(b in sep for b in g)]  # type: ignore[operator]
+            mframes[i] = cands[world.choose("malformed", len(cands))] + sep  # type: ignore[operator]
+    small = vframes + list(mframes.values())
+    bounds_small: list[int] = []
+    t = 0
+    for f in small:
+        t += len(f)
+        bounds_small.append(t)
+    limit = max(world.pick("limit", REM_LIMITS if sep is not None else REM_LIMITS_FILEBASED), tight_limit(entry, bounds_small))
+    frames: list[bytes] = []
+    expected: list[Any] = []
+    vi = 0
+    for i, k in enumerate(kinds):
+        if k == "V":
+            frames.append(vframes[vi])
+            expected.append(entry.expect(sent[vi], "stream"))
+            vi += 1
+        elif k == "M":
+            frames.append(mframes[i])
+            expected.append(None)
+            world.fault("splice")
+        else:
+            x = world.choose("over_by", len(REM_EXTRA) + 3)
+            extra = REM_EXTRA[x] if x < len(REM_EXTRA) else (x - len(REM_EXTRA) + 1) * limit // 2 + 1
+            if sep is None:
+                frames.append(M.produce(producer_proto, [bytes([_REM_FILLER]) * (limit + extra)])[0])
+            else:
+                frames.append(bytes([_REM_FILLER]) * (limit + 1 + extra) + sep)
+            if len(frames[-1]) <= limit:
+                raise HarnessError(f"oversized frame of {len(frames[-1])} bytes is not above the limit {limit} ({entry.name})")
+            expected.append(None)
+            world.fault("splice")
+    data = b"".join(frames)
+    bounds: list[int] = []
+    t = 0
+    for f in frames:
+        t += len(f)
+        bounds.append(t)
+    starts = [0] + bounds[:-1]
+    n = len(data)
+
+    max_chunks = 64 if n > 8192 else 256 if n > 1024 else None
+    if family == "filebased" and n > 1024:
+        max_chunks = 32
+    structural = M.LazyCuts(lambda: M.structural_cuts(data, bounds, entry.sep, entry.hints))
+    cuts = bounded_cuts(world, n, structural, max_chunks)
+    chunks = cuts_to_chunks(data, cuts)
+    proto = entry.protocol(needs, limit, hostile=True, debug=debug)
+    if mode == "copy":
+        drv: Any = _Copy(proto, world)
+        hint = None
+    else:
+        hint = world.pick("hint", HINTS_BIG if n > 4096 else HINTS)
+        fill_mode = world.choose("fill_mode", 2) if n <= 4096 else 0
+        drv = _Fill(proto, hint, world, fill_mode=fill_mode)
+    world.notes.update(entry=entry.name, mode=mode, limit=limit, debug=debug, kinds="".join(kinds), frame_sizes=[len(f) for f in frames], size_hint=hint, nchunks=len(chunks), chunks=[len(c) for c in chunks][:48])
+
+    def ctx() -> str:
+        return (
+            f"entry={entry.name} mode={mode} limit={limit} debug={debug} size_hint={hint} frames={''.join(kinds)} frame sizes={[len(f) for f in frames]} "
+            f"frame ends={bounds} chunk sizes={[len(c) for c in chunks][:64]} outcomes so far={[(o[0], o[1] if o[0] != 'pkt' else _shortv(o[1], 60)) for o in drv.out][:24]}\n"
+            f"data({n})={_short(data)}"
+        )
+
+    state = {"consumed": 0, "k": 0, "sync": True, "rejected": False}
+
+    def leave_sync(probe: str) -> None:
+        state["sync"] = False
+        world.probe(probe)
+        if sep is None:
+            raise _OutOfSync
+
+    def on_outcome(o: tuple, d: Any) -> None:
+        if o[0] == "crash":
+            return
+        held = d.held_bytes()
+        fed = d.fed
+        consumed = fed - len(held)
+        before = state["consumed"]
+        if consumed <= before:
+            what = "error" if o[0] == "err" else "packet"
+            raise Violation(
+                "progress",
+                f"outcome #{len(d.out)} ({o[0]} {o[1] if o[0] == 'err' else ''}) consumed nothing: {consumed} bytes consumed so far, {before} before it, "
+                f"{len(held)} still held of {fed} fed; a receive loop that skips errors would spin\n{ctx()}",
+                key=f"C06/{family}/{mode}/progress/{what}-consumed-nothing",
+            )
+        state["consumed"] = consumed
+        if not state["sync"]:
+            return
+        k = state["k"]
+        if k >= len(frames) or before != starts[k]:
+            raise HarnessError(f"in-sync bookkeeping broken: k={k} before={before} starts={starts}")
+        end = bounds[k]
+        if fed < end:  # the verdict was given on an incomplete frame: whatever follows has no frame structure any more
+            leave_sync("remainder-verdict-on-partial-frame")
+            return
+        if o[0] == "err":
+            if consumed > end:
+                lost = data[end:consumed]
+                nlost = sum(1 for j in range(k + 1, len(frames)) if bounds[j] <= consumed)
+                raise Violation(
+                    "remainder",
+                    f"the {o[1]} reported for frame #{k} ({kinds[k]}, bytes {starts[k]}..{end}, completely received: {fed} bytes fed) consumed {consumed - before} bytes, "
+                    f"{consumed - end} more than the frame: the remainder carried by the error ({len(held)} bytes) does not contain the {consumed - end} bytes that follow the "
+                    f"refused frame ({nlost} complete frame(s) of kinds {''.join(kinds[k + 1 : k + 1 + nlost])} lost: {_short(lost, 120)}); a receive loop that skips the error never sees them\n{ctx()}",
+                    key=f"{site}/error-consumed-following-frames",
+                )
+            if held != data[consumed:fed]:
+                raise Violation(
+                    "remainder",
+                    f"after the {o[1]} reported for frame #{k} ({kinds[k]}) the consumer keeps {_short(held, 120)}; the unread bytes are data[{consumed}:{fed}]={_short(data[consumed:fed], 120)}\n{ctx()}",
+                    key=f"{site}/remainder-not-the-unread-bytes",
+                )
+            if consumed < end:  # only part of the refused frame was dropped: its tail is garbage now
+                leave_sync("remainder-resync-inside-frame")
+                return
+            if kinds[k] == "V" and state["rejected"]:
+                raise Violation(
+                    "remainder",
+                    f"valid frame #{k} (bytes {starts[k]}..{end}), which follows a refused frame and was completely received, was answered with {o[1]} instead of the packet {_shortv(expected[k], 120)}\n{ctx()}",
+                    key=f"{site}/valid-frame-after-rejection-rejected",
+                )
+            if kinds[k] != "V":
+                if not state["rejected"]:
+                    world.probe("remainder-complete-frame-rejected")
+                state["rejected"] = True
+            state["k"] = k + 1
+            return
+        # a packet
+        if consumed != end:
+            leave_sync("remainder-packet-off-boundary")
+            return
+        if kinds[k] == "V" and state["rejected"]:
+            world.probe("remainder-valid-frame-after-rejection")
+            if not entry.eq(o[1], expected[k]):
+                raise Violation(
+                    "remainder",
+                    f"valid frame #{k} (bytes {starts[k]}..{end}), which follows a refused frame, was delivered as {_shortv(o[1], 160)}; sent: {_shortv(expected[k], 160)}\n{ctx()}",
+                    key=f"{site}/valid-frame-after-rejection-altered",
+                )
+        state["k"] = k + 1
+
+    drv.on_outcome = on_outcome
+    crashed = False
+    try:
+        for c in chunks:
+            drv.feed(c)
+            if drv.out and drv.out[-1][0] == "crash":
+                crashed = True
+                break
+        if not crashed:
+            drv.drain(None)
+            crashed = bool(drv.out) and drv.out[-1][0] == "crash"
+    except _OutOfSync:
+        pass
+    world.log("c06r", mode, entry.name, "".join(kinds), len(chunks), tuple(o[0] for o in drv.out[:50]), len(drv.out))
+    world.progress(sum(1 for o in drv.out if o[0] != "crash"))
+    if crashed:
+        o = drv.out[-1]
+        if o[1] == "RunTimeout":
+            raise Violation("no-hang", f"the consumer did not return within the wall watchdog after {len(drv.out) - 1} outcomes\n{ctx()}", key=f"C06/{family}/{mode}/hang")
+        tag, text = _escape_tag(drv.last_escape, o[2] or o[1])
+        raise Violation("escape", f"{text} escaped the {mode} consumer after {len(drv.out) - 1} outcomes (the receive path is dead after this)\n{ctx()}", key=f"C06/{family}/{mode}/escape/{tag}")
+    if state["sync"] and state["rejected"] and state["k"] < len(frames):
+        k = state["k"]
+        raise Violation(
+            "remainder",
+            f"every byte was handed over and the loop `while bytes remain: next(None)` has ended, but frame #{k} ({kinds[k]}, bytes {starts[k]}..{bounds[k]}) and the {len(frames) - k - 1} frame(s) behind it, "
+            f"which follow a refused frame, were never answered ({state['consumed']} of {n} bytes consumed)\n{ctx()}",
+            key=f"{site}/valid-frame-after-rejection-not-delivered",
+        )
+
+
 # ------------------------------------------------------------------------------------------------ harness table
 _FAMILY_WEIGHT = {"line": 2, "json": 4, "base64": 2, "zlib": 2, "bz2": 1, "struct": 1, "namedtuple": 1, "pickle": 2, "autosep": 1, "fixed": 1, "filebased": 2, "stapled": 2, "converter": 2}
+_REMAINDER_WEIGHT = {"filebased": 3, "line": 1, "autosep": 1, "json": 1, "base64": 1, "stapled": 1, "converter": 1}
 _NEEDS = {"oneshot": "datagram", "copy": "stream", "fill": "buffered"}
 
 
@@ -629,6 +885,12 @@ def _make_harnesses() -> list[Harness]:
             if not M.select(family, needs=_NEEDS[mode], large=False):
                 continue
             out.append(Harness(f"{family}-{mode}", (lambda w, f=family, m=mode: run_malformed(w, f, m)), weight=_FAMILY_WEIGHT.get(family, 1), wall_limit=20.0))
+    # framed streams (known frame boundaries): what the error's remainder must still contain
+    for family in M.FAMILIES:
+        for mode in ("copy", "fill"):
+            if not _rem_entries(family, mode):
+                continue
+            out.append(Harness(f"{family}-remainder-{mode}", (lambda w, f=family, m=mode: run_remainder(w, f, m)), weight=_REMAINDER_WEIGHT.get(family, 1), wall_limit=20.0))
     return out
 
 
